@@ -182,6 +182,8 @@ def system_block(model, rep):
         if isinstance(x, ast.Assign) and isinstance(x.value, ast.Call) and isinstance(x.value.func, ast.Name) and x.value.func.id in ("_get_mand", "_get_opt") \
                 and len(x.value.args) >= 2 and is_name(x.value.args[0], sysvar) and isinstance(x.value.args[1], ast.Constant):
             rkeys[x.value.args[1].value] = x.targets[0].id if isinstance(x.targets[0], ast.Name) else None
+            if registry_of(x.targets[0]) is not None:
+                rkeys[x.value.args[1].value] = ("direct", registry_of(x.targets[0]))
     ok = set(wkeys) == set(rkeys)
     if not ok:
         rep.violation("R3", "system.System.save/from_file", "%s:%d" % (rel, save.lineno), "'system' block: written keys %s, read keys %s" % (sorted(wkeys), sorted(rkeys)), "system keys w=%s r=%s" % (sorted(set(wkeys) - set(rkeys)), sorted(set(rkeys) - set(wkeys))))
@@ -192,6 +194,8 @@ def system_block(model, rep):
             rep.violation("R3", "system.System.save", "%s:%d" % (rel, save.lineno), "'%s' is written from %s, not from the registry of that name" % (k, ast.unparse(v) if v is not None else "nothing"), "written " + k)
         var = rkeys.get(k)
         stores = [x for x in ast.walk(load) if isinstance(x, ast.Assign) and any(registry_of(t) == k for t in x.targets)]
+        if var == ("direct", k) and stores:
+            continue        # self._g.attrs[k] = _get_opt(<system block>, k, ..): restored without a temporary
         if not stores or not is_name(stores[-1].value, var):
             ok = False
             rep.violation("R3", "system.System.from_file", "%s:%d" % (rel, load.lineno), "registry '%s' is not restored verbatim from the file" % k, "restored " + k)
